@@ -140,25 +140,39 @@ def run(chk):
             aa = [flow.simplify_term(Tw.operand(x, c[0][0], "t")) for x in c[0][1]["args"]]
             okw = aa == [("param", 1), ("param", 2), ("param", 4)]
         chk.ob("R2 stored credential", "R2|wrap|delegates", okw, where(w), "wrap → from_u2f_register_response(request, response, private_key): %s" % okw)
-        ag = find_aggs(fr, "Passkey")
+        from . import inline as _inl, bytesview as _bv
+        fri = _inl.inlined(p, fr)   # the record may be built in a private helper shared with the authentication upgrade
+        ag = find_aggs(fri, "Passkey")
+
+        def rp_id_form(t):
+            """(text encoding, byte source) of an rp_id string: which encoding of which bytes"""
+            x = t
+            while isinstance(x, tuple) and len(x) == 4 and x[0] == "call" and x[2] and (names.is_(x[1], "String::as_str") or names.is_(x[1], "Deref::deref") or names.is_(x[1], "AsRef::as_ref") or names.is_(x[1], "ToString::to_string")):
+                x = x[2][0]
+            if is_call(x, "Encoding::encode") and len(x[2]) == 2:
+                return (x[2][0], _bv.closed_view(x[2][1]))
+            return None
         if ag:
             bb, i, rv = ag[0]
-            Tf = flow.Terms(p, fr)
-            f = {k: flow.simplify_term(Tf.operand(o, bb, i)) for k, o in zip(rv["fields"], rv["ops"])}
-            ok = f["credential_id"] == ("field", ("param", 2), "key_handle") and f["rp_id"] == ("field", ("param", 1), "application") and f["key"] == ("param", 3) and f["counter"] == ("agg", "core::option::Option", "Some", (("0", ("const", 0)),))
-            chk.ob("R2 stored credential", "R2|from_u2f_register_response|fields", ok, where(fr, line=fr.blocks[bb]["stmts"][i]["line"]), "Passkey{id: %s, rp_id: %s, key: %s, counter: %s}" % tuple(flow.term_str(f[k]) for k in ("credential_id", "rp_id", "key", "counter")))
-            conv_reg = conversions(fr, rv["ops"][rv["fields"].index("rp_id")])
+            Tf = flow.Terms(p, fri)
+            Tf.conversions = True
+            f = {k: N.inline(Tf.operand(o, bb, i)) for k, o in zip(rv["fields"], rv["ops"])}
+            conv_reg = rp_id_form(f["rp_id"])
+            ok = _bv.closed_view(f["credential_id"]) == (("field", ("param", 2), "key_handle"), 0, None) and conv_reg is not None and conv_reg[1] == (("field", ("param", 1), "application"), 0, None) \
+                and f["key"] == ("param", 3) and f["counter"] == ("agg", "core::option::Option", "Some", (("0", ("const", 0)),))
+            chk.ob("R2 stored credential", "R2|from_u2f_register_response|fields", ok, where(fr), "Passkey{id: %s, rp_id: %s, key: %s, counter: %s}" % tuple(flow.term_str(f[k])[:90] for k in ("credential_id", "rp_id", "key", "counter")))
     Ta = flow.Terms(p, ua)
     fc = names.calls_to(ua, "CredentialStore::find_credentials")
     if chk.require("R2 stored credential", "R2|authenticate|lookup", len(fc) == 1, where(ua), "find_credentials call not found"):
         fb, ft = fc[0]
-        conv_auth = conversions(ua, ft["args"][2])
-        rp = flow.simplify_term(Ta.operand(ft["args"][2], fb, "t"))
+        Tc = flow.Terms(p, ua)
+        Tc.conversions = True
+        conv_auth = rp_id_form(N.inline(Tc.operand(ft["args"][2], fb, "t")))
         ids = flow.simplify_term(Ta.operand(ft["args"][1], fb, "t"))
-        bytesish = lambda ty: "bytes" if ty in ("Vec", "[u8]") or str(ty).startswith("[u8") or ty == "array" else ty
-        nc = lambda ch: [(bytesish(a), bytesish(b)) for a, b in (ch or []) if bytesish(a) != bytesish(b)]
-        ok = conv_reg is not None and nc(conv_auth) == nc(conv_reg) and len(nc(conv_reg)) >= 2 and (rp == ("field", ("upvar", 1), "application") or flow.term_contains(rp, lambda x: x == ("field", ("upvar", 1), "application")))
-        chk.ob("R2 stored credential", "R2|rp-id-conversion-agrees", ok, where(ua, fb), "stored rp_id: application via %s ; lookup rp_id: application via %s" % (conv_reg, conv_auth))
+        # stored and looked-up rp_id: the same text encoding of the request's application parameter
+        ok = conv_reg is not None and conv_auth is not None and conv_auth[0] == conv_reg[0] and conv_auth[1] == (("field", ("upvar", 1), "application"), 0, None)
+        chk.ob("R2 stored credential", "R2|rp-id-conversion-agrees", ok, where(ua, fb), "stored rp_id: %s of the application parameter ; lookup rp_id: %s of the application parameter" % (
+            flow.term_str(conv_reg[0]) if conv_reg else "?", flow.term_str(conv_auth[0]) if conv_auth else "?"))
         okid = has(ids, lambda x: isinstance(x, tuple) and len(x) == 4 and x[0] == "agg" and x[1].endswith("PublicKeyCredentialDescriptor") and dict(x[3]).get("id") == ("field", ("upvar", 1), "key_handle"))
         chk.ob("R2 stored credential", "R2|authenticate|id-is-key-handle", okid, where(ua, fb), "lookup ids = %s" % flow.term_str(ids)[:160])
 
